@@ -210,7 +210,7 @@ def castConst {F} (ops : FloatOps F) (lty t : Ty) (l : Nat) : Expr :=
       (if ops.le (ops.ofInt (-(2 ^ 63))) f && ops.lt f (ops.ofInt (2 ^ 63))
        then .const t (cast ops t (ofI (ops.toInt f))) else .error)
     else
-      (if ops.le (ops.ofInt 0) f && ops.lt f (ops.ofInt (2 ^ 64))
+      (if ops.lt (ops.ofInt (-1)) f && ops.lt f (ops.ofInt (2 ^ 64))      -- `f > -1.0 && f < 0x1p64`
        then .const t (cast ops t (ofI (ops.toInt f))) else .error)
   else .const t (cast ops t l)
 
@@ -339,15 +339,18 @@ def takeDigits (base : Nat) : List Char → List Nat × List Char
 
 def numVal (base : Nat) (ds : List Nat) : Nat := ds.foldl (fun a d => a * base + d) 0
 
+/-- the optional `0x`/`0X` that `strtoull` skips for base 16 (only when a hex digit follows). -/
+def skipHexPrefix (src : List Char) (base : Nat) : List Char :=
+  match src with
+  | '0' :: x :: c :: rest =>
+    if base = 16 ∧ (x = 'x' ∨ x = 'X') ∧ isDigitOf 16 c = true then c :: rest else src
+  | _ => src
+
 /-- `strtoull(src, &end, base)` for `base ∈ {2, 8, 10, 16}` on a pp-number (no white space, no
 sign): `none` when no conversion is performed (`end == src`); result = (value saturated at
 `ULLONG_MAX`, `errno == ERANGE`, rest). -/
 def strtoull (src : List Char) (base : Nat) : Option (Nat × Bool × List Char) :=
-  let s := match src with
-    | '0' :: x :: c :: rest =>
-      if base = 16 ∧ (x = 'x' ∨ x = 'X') ∧ isDigitOf 16 c = true then c :: rest else src
-    | _ => src
-  let r := takeDigits base s
+  let r := takeDigits base (skipHexPrefix src base)
   if r.1 = [] then none else some (min (numVal base r.1) (W - 1), decide (W ≤ numVal base r.1), r.2)
 
 open CprocVerif.CInt (LitTy)
@@ -394,14 +397,25 @@ inductive Lit
   | error
 deriving DecidableEq, Repr
 
+/-- base of a pp-number: `0x`/`0X` → 16, `0b`/`0B` → 2, other leading `0` → 8, else 10. -/
+def baseOf (tok : List Char) : Nat :=
+  match tok with
+  | c0 :: rest =>
+    if c0 = '0' then
+      (match rest with
+       | c :: _ => if toLower c = 'x' then 16 else if toLower c = 'b' then 2 else 8
+       | [] => 8)
+    else 10
+  | [] => 10
+
+/-- `strpbrk(tok.lit, base == 16 ? ".pP" : ".eE")`: the token is a floating constant. -/
+def hasFloatChar (tok : List Char) (base : Nat) : Bool :=
+  tok.any fun c => if base = 16 then c = '.' ∨ c = 'p' ∨ c = 'P' else c = '.' ∨ c = 'e' ∨ c = 'E'
+
 /-- the `TNUMBER` case of `primaryexpr`. -/
 def parseNumber (tok : List Char) : Lit :=
-  let base : Nat := match tok with
-    | '0' :: c :: _ => if toLower c = 'x' then 16 else if toLower c = 'b' then 2 else 8
-    | '0' :: _ => 8
-    | _ => 10
-  let fl : List Char := if base = 16 then ['.', 'p', 'P'] else ['.', 'e', 'E']
-  if tok.any (fun c => fl.contains c) then .floating
+  let base := baseOf tok
+  if hasFloatChar tok base then .floating
   else
     let src := if base = 2 then tok.drop 2 else tok
     match strtoull src base with
